@@ -357,6 +357,29 @@ v("C01", "scope-changed-endpoints-all", ING, "func (c *converter) syncChangedEnd
 v("C05", "scope-backend-maps-all", CFG, "	for _, backend := range c.backends.ItemsAdd() {", "	for _, backend := range c.backends.Items() {", "C05.collection-scope")
 v("C05", "scope-alignslots-changed-only", DYN, "	for _, back := range backends.Items() {", "	for _, back := range backends.ItemsAdd() {", "C05.collection-scope")
 
+# ---- round-4 rules
+SSL = "pkg/controller/services/ssl.go"
+TPL = "pkg/haproxy/template/template.go"
+v("C16", "gateway-weight-hoisted", GW, "	var svclist []*api.Service\n	for _, back := range backendRefs {", "	var svclist []*api.Service\n	weight := 1\n	for _, back := range backendRefs {", "C16.per-element-values", note="with the next edit: a local hoisted out of the loop")
+V[-1]["edits"].append(dict(file=GW, old="		weight := 1\n		if back.Weight != nil {", new="		if back.Weight != nil {"))
+v("C06", "gateway-weight-hoisted", GW, "	var svclist []*api.Service\n	for _, back := range backendRefs {", "	var svclist []*api.Service\n	weight := 1\n	for _, back := range backendRefs {", "C06.per-element-values")
+V[-1]["edits"].append(dict(file=GW, old="		weight := 1\n		if back.Weight != nil {", new="		if back.Weight != nil {"))
+v("C17", "acme-link-bare-secret-name", ING, "c.tracker.TrackNames(convtypes.ResourceIngress, ingName, convtypes.ResourceAcmeData, secretName)", "c.tracker.TrackNames(convtypes.ResourceIngress, ingName, convtypes.ResourceAcmeData, tls.SecretName)", "C17.tracked-name-is-model-key")
+v("C01", "gateway-link-raw-hostname", GW, "{Context: convtypes.ResourceHAHostname, UniqueName: h.Hostname},", "{Context: convtypes.ResourceHAHostname, UniqueName: string(hostname)},", "C01.tracked-name-is-model-key")
+v("C17", "periodic-check-uses-delta", INST, "	for _, storage := range i.config.AcmeData().Storages().BuildAcmeStorages() {", "	for _, storage := range i.config.AcmeData().Storages().BuildAcmeStoragesAdd() {", "C17.queue-sources")
+v("C12", "reload-send-error-swallowed", INST, '		return fmt.Errorf("error sending reload to master socket: %w", err)\n', '		i.logger.Warn("error sending reload to master socket: %v", err)\n', "C12.error-exits")
+v("C12", "wait-worker-ignores-failed-counter", INST, "	if len(out.Workers) == 0 || out.Master.Failed > 0 {", "	if len(out.Workers) == 0 {", "C12.reload-verdict")
+v("C15", "key-pair-not-verified", SSL, "	if _, err := tls.X509KeyPair(crt, key); err != nil {\n		return nil, err\n	}\n", "	_ = tls.X509KeyPair\n", "C15.reader-exits")
+v("C08", "ingress-annotation-predicate-dropped", WATCH, "				predicate.Or(\n					predicate.AnnotationChangedPredicate{},\n					predicate.GenerationChangedPredicate{},\n				),\n				predicate.Funcs{\n					CreateFunc", "				predicate.Or(\n					predicate.GenerationChangedPredicate{},\n				),\n				predicate.Funcs{\n					CreateFunc", "C08.predicate-table")
+v("C04", "search-starts-after-upper", MAPS, "	starting := e1._upper\n	if starting == nil {", "	var starting *list.Element\n	if e1._upper != nil {\n		starting = e1._upper.Next()\n	}\n	if starting == nil {", "C04.search-start")
+v("C05", "write-skipped-when-empty", TPL, "	if err := os.WriteFile(output, t.rawConfig.Bytes(), 0644); err != nil {", "	if t.rawConfig.Len() == 0 {\n		return nil\n	}\n	if err := os.WriteFile(output, t.rawConfig.Bytes(), 0644); err != nil {", "C05.write-unconditional")
+v("C10", "headers-applied-after-lookup", GW, "			pathlink.WithHeadersMatch(haheaders)\n			if h.FindPathWithLink(pathlink) != nil {", "			if h.FindPathWithLink(pathlink) != nil {", "C10.link-complete-before-lookup")
+V[-1]["edits"].append(dict(file=GW, old="			h.AddLink(backend, pathlink)\n			c.handlePassthrough", new="			h.AddLink(backend, pathlink.WithHeadersMatch(haheaders))\n			c.handlePassthrough"))
+v("C18", "preflight-exempt-from-auth", TMPL, """{{- template "authExternal" map $auth (iif (eq $pathIDs "") "" (printf "{ var(txn.pathID) -m str %s }" $pathIDs)) }}""", """{{- template "authExternal" map $auth (iif (eq $pathIDs "") "!METH_OPTIONS" (printf "!METH_OPTIONS { var(txn.pathID) -m str %s }" $pathIDs)) }}""", "C18.template")
+v("C19", "short-lines-skipped", ANNB, "		for _, line := range lines {\n			if firstToken(line) == keyword {", "		for _, line := range lines {\n			if len(line) <= len(keyword) {\n				continue\n			}\n			if firstToken(line) == keyword {", "C19.scan-complete")
+v("C03", "pretrack-adds-only", ING, "	for _, ing := range append(c.changed.IngressesAdd, c.changed.IngressesUpd...) {", "	for _, ing := range c.changed.IngressesAdd {", "C03.pretrack-covers")
+v("C11", "response-table-narrowed", DYN, 'return response == "" || strings.HasPrefix(response, "IP changed from ") || strings.HasPrefix(response, "no need to change ")', 'return response == "" || strings.HasPrefix(response, "IP changed from ")', "C11.responses")
+
 for x in V:
     d = os.path.join(ROOT, "variants", x["property"])
     os.makedirs(d, exist_ok=True)
